@@ -169,6 +169,18 @@ def prepare(d, seed, names):
                 t[7] = "AC=1;AN=2;SVLEN=1;SVTYPE=SNV"
             o.write("\t".join(t) + "\n")
     files["A_undeclared"] = und
+    # the same VCF claiming 1/1 for the first sample at the first variant of every chromosome (the reads show 0/1):
+    # gives the changed-genotype list of a --distrust-genotypes run something to list
+    con = os.path.join(A, "contradicted.vcf")
+    seen_chrom = set()
+    with open(pa["vcf"]) as f, open(con, "w") as o:
+        for line in f:
+            t = line.rstrip("\n").split("\t")
+            if not line.startswith("#") and len(t) > 9 and t[0] not in seen_chrom:
+                seen_chrom.add(t[0])
+                t[9] = "1/1"
+            o.write("\t".join(t) + "\n")
+    files["A_contradicted"] = con
     return files
 
 
@@ -205,6 +217,7 @@ def scenarios(files, names):
         {"id": "phase-HP", "cmd": "phase", "names": names, "chroms": chroms, "args": {"inputs": [a["bam"]], "vcf": a["vcf"], "fasta": a["fasta"], "kw": {"tag": "HP"}}},
         {"id": "phase-undeclared-info", "cmd": "phase", "names": ["AC", "AN", "SVLEN", "SVTYPE"], "chroms": chroms, "args": {"inputs": [a["bam"]], "vcf": files["A_undeclared"], "fasta": a["fasta"]}},
         {"id": "genotype-undeclared-info", "cmd": "genotype", "names": ["AC", "AN", "SVLEN", "SVTYPE"], "chroms": chroms, "args": {"inputs": [a["bam"]], "vcf": files["A_undeclared"], "fasta": a["fasta"]}},
+        {"id": "phase-distrust-lists", "cmd": "phase", "names": names, "chroms": chroms, "args": {"inputs": [a["bam"]], "vcf": files["A_contradicted"], "fasta": a["fasta"], "gtlist": True, "kw": {"distrust_genotypes": True, "include_homozygous": True}}},
         {"id": "phase-ped", "cmd": "phase", "names": files["F_names"], "args": {"inputs": [f["bam"]], "vcf": f["vcf"], "fasta": f["fasta"], "ped": files["F_ped"]}},
         {"id": "phase-use-ped-samples", "cmd": "phase", "names": ["dad", "mom", "kid"], "args": {"inputs": [f["bam"]], "vcf": f["vcf"], "fasta": f["fasta"], "ped": files["F_ped"], "kw": {"use_ped_samples": True}}},
         {"id": "genotype", "cmd": "genotype", "names": names, "chroms": chroms, "args": {"inputs": [a["bam"]], "vcf": a["vcf"], "fasta": a["fasta"]}},
@@ -233,14 +246,14 @@ def digest(outdir):
         path = os.path.join(outdir, fn)
         if os.path.isdir(path):
             continue
-        if fn.endswith(".bam") or fn.endswith(".bam.rep1"):
+        if fn.endswith(".bam") or fn.endswith(".bam.rep1") or fn.endswith(".bam.first"):
             recs = synth.read_bam(path)
             with pysam.AlignmentFile(path, check_sq=False) as f:
                 hd = f.header.to_dict()
             for pg in hd.get("PG", []):
                 pg.pop("CL", None)
             out[fn] = json.dumps([recs, hd], sort_keys=True, default=str)
-        elif fn.endswith(".bai"):
+        elif ".bai" in fn:
             continue
         else:
             with open(path, "rb") as f:
@@ -423,9 +436,9 @@ def run(rep, tier, seed, only=None):
                 viols.append(V("error", f"{s['id']} repeated failed: {info['error']}", {"scenario": s["id"], "repeat": 2}))
                 continue
             for fn, content in dg.items():
-                if fn.endswith(".rep1"):
-                    if dg.get(fn[:-5]) != content:
-                        viols.append(V(f"repetition:{s['id']}", f"{s['id']}: second run in the same interpreter writes a different {fn[:-5]}", {"scenario": s["id"], "repeat": 2}))
+                if fn.endswith(".first"):
+                    if dg.get(fn[:-6]) != content:
+                        viols.append(V(f"repetition:{s['id']}", f"{s['id']}: second run in the same interpreter (same output paths) writes a different {fn[:-6]}", {"scenario": s["id"], "repeat": 2}))
         # ---- 3b. every scenario, then other commands on the same files with other options, then every scenario again -
         # all in ONE interpreter: what a command writes must not depend on what ran before it
         if not only or "sequence" in only:
